@@ -59,6 +59,11 @@ def gen_specs(ctx):
     out.append(S([E("Base", [F("b", "string"), F("ro", get=True)], shoot=True), F("x")]))
     out.append(S([E("Base", [F("b", "string")], shoot=True, ptr=True, typedoc="getter"), F("x", set=True)], typedoc="setter"))
     out.append(S([E("Base", [F("b", "string")], shoot=True), F("Pub")]))
+    # a shoot type whose accessors mention NAMED types, embedded by two types of one run (the companion shares it)
+    for ptr in (False, True):
+        sh = S([E("Base", [F("id"), F("kind", "time.Duration"), F("in", "Inner"), F("ptr", "*Inner")], shoot=True, ptr=ptr), F("total", "int64")])
+        sh["force_share"] = True
+        out.append(sh)
     n = ctx.n(300, 2500)
     for _ in range(n):
         s = g.top("T", getset_dirs=True, generic=0.08, maxfields=4, generic_embed=0.2, selfembed=0.05, types_extra=newgen.EXTRA_TYPES)
@@ -108,7 +113,10 @@ def run(ctx, obl):
         cid = "g%d" % i
         shoots = [m["decl"]["name"] for m in s["members"] if m["k"] == "e" and m.get("shoot")]
         # multi-type run (30%): companion types first (a generic one embedding a shoot type, with restrictions on fields named like T's)
-        cdecls, cnames, cafter = newgen.companion(ctx.rng, s, cid, share_shoot=True) if ctx.rng.random() < 0.3 else ([], [], [])
+        if s.get("force_share"):
+            cdecls, cnames, cafter = newgen.companion(ctx.rng, s, cid, share_shoot="always")
+        else:
+            cdecls, cnames, cafter = newgen.companion(ctx.rng, s, cid, share_shoot=True) if ctx.rng.random() < 0.3 else ([], [], [])
         res.hist("multi_type", "companion" if cnames else "companion-sharing-the-embedded-shoot-type" if cafter else "no")
         args = ["new", "-getset", "-type=" + ",".join(cnames + shoots + cafter + [s["name"]])]
         pc = {"id": cid, "files": {"t.go": newgen.render_file("cs", cdecls + [s])}, "runs": [{"args": args}] * (2 if ctx.rng.random() < 0.12 else 1), "oracle": {},
